@@ -28,7 +28,12 @@ RULE = ("one operation = one key exchange of the real client (NewMTProto + Creat
         "rsa.PublicKey object fresh / one object reassigned / one object overwritten in place between exchanges: "
         "resPQ offering only the fingerprint of the key the object held EARLIER (must be refused), offering the "
         "current key's alone / next to the earlier one (must be accepted), back to the first key, after an abandoned "
-        "exchange. distinct = distinct operation lines; each "
+        "exchange. The client side of the aftermath: for every class of fault (reply x field, i.e. every step at "
+        "which the exchange can be abandoned) the operation is run again with the application going on with the "
+        "same object - a request through MakeRequest (+req), a second CreateConnection answered with the same script "
+        "and then a request (+retry), each on its own goroutine with a bounded wait - while the server logs every "
+        "frame the client writes: no encrypted message (auth_key_id != 0), nothing stored, not in encrypted mode, "
+        "the retry ends with an error. distinct = distinct operation lines; each "
         "is compared with the Lean client machine (outcome class, the three request bodies, key, salt, flags, "
         "stores) and judged by the independent reply-sequence judge")
 
